@@ -137,7 +137,8 @@ func (p *c19) history(i int) c19history {
 		sized = append(sized, "size-1M", "size-9M", "includes-9M")
 	}
 	names := []string{"main", "part1", "part2", "layout", "macros", "base0", "broken-lex", "broken-parse", "includes-broken", "extends-broken", "imports-broken", "runtime-fail", "many", "no-such-template", "subdir", "", "includes-dir", "includes-empty", "extends-dir", "subdir/inner",
-		"linkout.twig", "linkdir/o.twig", "linkin.twig", "dangling.twig", "linkdir", "includes-linkout", "../" + "x", "subdir/../main", "./main", "subdir//inner"}
+		"linkout.twig", "linkdir/o.twig", "linkin.twig", "dangling.twig", "linkdir", "includes-linkout", "../" + "x", "subdir/../main", "./main", "subdir//inner", "../c19-outside.twig", "subdir/../../c19-outside.twig", "includes-dotdot"}
+	h.files["includes-dotdot"] = "a {% include '../c19-outside.twig' %} b"
 	h.files["includes-linkout"] = "a {% include 'linkout.twig' %} b {% include 'linkdir/o.twig' %}"
 	n := 1 + r.Intn(p.pick(50, 200))
 	for k := 0; k < n; k++ {
@@ -211,6 +212,13 @@ func (p *c19) Run(i int) (res fw.Result) {
 	os.Symlink(outside, filepath.Join(dir, "linkdir"))
 	os.Symlink(filepath.Join(dir, "main"), filepath.Join(dir, "linkin.twig"))
 	os.Symlink(filepath.Join(dir, "nowhere"), filepath.Join(dir, "dangling.twig"))
+	// an existing file next to the root, reachable from inside through "..": whether the loader serves it or
+	// refuses it, it must not keep it open (the same file for every history and worker: written, never removed)
+	if shared := filepath.Join(filepath.Dir(dir), "c19-outside.twig"); true {
+		if _, err := os.Stat(shared); err != nil {
+			os.WriteFile(shared, []byte("next to the root {{ 1 }}"), 0o644)
+		}
+	}
 	mk := func(loader stick.Loader, tw bool) *stick.Env {
 		var env *stick.Env
 		if tw {
